@@ -782,6 +782,8 @@ pub fn run(cfg: &RunCfg) -> i32 {
             "simulated_runs_per_hour": per_hour,
             "seeds_per_hour": per_hour,
             "simulated_ticks": batch.ticks,
+            "simulated_wall_clock_s": batch.probes.get("simulated-wall-clock-ms").copied().unwrap_or(0) / 1000,
+            "worlds_in_which_the_code_under_test_read_the_clock": batch.probes.get("clock-read-by-code-under-test").copied().unwrap_or(0),
             "events_logged": batch.events,
             "stub_store_calls": batch.stub_calls,
             "faults_fired": batch.fired,
